@@ -22,7 +22,8 @@ def exSys : Sys :=
               [.pop 0, .lock 0, .load 0, .store 0, .unlock 0, .pop 0]],
     caps := [1] }
 
-def exSched : List Nat := [1, 0, 0, 1, 1, 0, 1, 0, 1, 1, 0, 0, 0, 1, 1, 0, 1]
+def exSched : List (Nat × Nat) :=
+  [1, 0, 0, 1, 1, 0, 1, 0, 1, 1, 0, 0, 0, 1, 1, 0, 1].map (fun t => (t, 0))
 
 example : quiescent exSys (exec exSys init exSched) = true := by decide
 example : exSys.guarded (fun _ => 0) = true := by decide
@@ -35,14 +36,14 @@ example : (recvBy 1 0 (exec exSys init exSched).trace).map (·.val) = [1, 2] := 
 /-- Conservation, for every schedule: what was pushed on a channel, in push order, is what was
     received from it, in receive order, followed by what the channel still holds. Nothing is
     lost, duplicated, invented or reordered by the channel. -/
-theorem fifo_conservation (S : Sys) (sched : List Nat) (ch : Nat) :
+theorem fifo_conservation (S : Sys) (sched : List (Nat × Nat)) (ch : Nat) :
     recvLog ch (exec S init sched).trace ++ (exec S init sched).queue ch
       = pushLog ch (exec S init sched).trace :=
   inv_conservation (reachable_exec Reachable.init sched) ch
 
 /-- For every schedule the items of producer `p` received so far from channel `ch` (in the
     global order of the receive steps) are a prefix, in order, of what `p`'s program pushes. -/
-theorem fifo_producer_order (S : Sys) (sched : List Nat) (ch p : Nat) :
+theorem fifo_producer_order (S : Sys) (sched : List (Nat × Nat)) (ch p : Nat) :
     (recvLog ch (exec S init sched).trace).filter (fun it => it.src == p)
       <+: sends p ch (S.prog p) := by
   have hr := reachable_exec (S := S) Reachable.init sched
@@ -60,7 +61,7 @@ theorem fifo_producer_order (S : Sys) (sched : List Nat) (ch p : Nat) :
     nothing is received twice — the received items together with the buffered ones are
     duplicate-free. -/
 theorem fifo_no_duplicates (S : Sys) (nch : Nat) (hd : S.distinctSends nch = true)
-    (sched : List Nat) (ch : Nat) (hch : ch < nch) :
+    (sched : List (Nat × Nat)) (ch : Nat) (hch : ch < nch) :
     (recvLog ch (exec S init sched).trace ++ (exec S init sched).queue ch).Nodup := by
   have hr := reachable_exec (S := S) Reachable.init sched
   rw [inv_conservation hr ch]
@@ -70,7 +71,7 @@ example : exSys.distinctSends 1 = true ∧ 0 < 1 := by decide
 
 /-- For every schedule that runs all threads to completion nothing is lost: per producer, the
     received items followed by the still-buffered ones are exactly what the producer pushed. -/
-theorem fifo_nothing_lost (S : Sys) (sched : List Nat) (hq : quiescent S (exec S init sched) = true)
+theorem fifo_nothing_lost (S : Sys) (sched : List (Nat × Nat)) (hq : quiescent S (exec S init sched) = true)
     (ch p : Nat) :
     (recvLog ch (exec S init sched).trace).filter (fun it => it.src == p)
       ++ ((exec S init sched).queue ch).filter (fun it => it.src == p)
@@ -84,7 +85,7 @@ theorem fifo_nothing_lost (S : Sys) (sched : List Nat) (hq : quiescent S (exec S
 example : quiescent exSys (exec exSys init exSched) = true := by decide
 
 /-- `fifo_exactly_once`: the three statements together, for every schedule. -/
-theorem fifo_exactly_once (S : Sys) (nch : Nat) (hd : S.distinctSends nch = true) (sched : List Nat)
+theorem fifo_exactly_once (S : Sys) (nch : Nat) (hd : S.distinctSends nch = true) (sched : List (Nat × Nat))
     (ch : Nat) (hch : ch < nch) :
     let c := exec S init sched
     (∀ p, (recvLog ch c.trace).filter (fun it => it.src == p) <+: sends p ch (S.prog p)) ∧
@@ -96,14 +97,32 @@ theorem fifo_exactly_once (S : Sys) (nch : Nat) (hd : S.distinctSends nch = true
    fun hq p => fifo_nothing_lost S sched hq ch p⟩
 
 /-- A channel never holds more than its capacity (an unbuffered channel: one item in transit). -/
-theorem capacity_respected (S : Sys) (sched : List Nat) (ch : Nat) :
+theorem capacity_respected (S : Sys) (sched : List (Nat × Nat)) (ch : Nat) :
     ((exec S init sched).queue ch).length ≤ max (S.cap ch) 1 :=
   inv_capacity (reachable_exec Reachable.init sched) ch
+
+/-! ## select -/
+
+/-- A select step is a pop on one of the ready channels: the channel a select receives from is
+    one of its listed channels and holds an item, and every listed channel that holds an item
+    can be the one chosen (for some choice of the runtime). All channel theorems above are
+    proved with threads that receive through `sel` as well as `pop` (the receive event is the
+    same `popped`). -/
+theorem select_is_pop_on_ready_channel (c : Config) (chs : List Nat) (ch : Nat) :
+    (∃ k, selChan c chs k = some ch) ↔ (ch ∈ chs ∧ c.queue ch ≠ []) :=
+  ⟨fun ⟨_, h⟩ => selChan_sound h, fun ⟨hm, hq⟩ => selChan_complete hm hq⟩
+
+/-- two producers, one consumer that receives both items through select over both channels -/
+def exSelSys : Sys := { progs := [[.push 0 1], [.push 1 2], [.sel [0, 1], .sel [1, 0]]], caps := [1, 1] }
+
+example : quiescent exSelSys (exec exSelSys init [(0, 0), (1, 0), (2, 1), (2, 0)]) = true := by decide
+example : (recvBy 2 1 (exec exSelSys init [(0, 0), (1, 0), (2, 1), (2, 0)]).trace).map (·.val) = [2] := by decide
+example : fifoOk (obsFifo exSelSys (exec exSelSys init [(0, 0), (1, 0), (2, 1), (2, 0)]) 0) = true := by decide
 
 /-! ## mutexes -/
 
 /-- For every schedule two threads are never inside sections of the same mutex. -/
-theorem mutex_exclusion (S : Sys) (sched : List Nat) (m t1 t2 : Nat)
+theorem mutex_exclusion (S : Sys) (sched : List (Nat × Nat)) (m t1 t2 : Nat)
     (h1 : m ∈ inside S (exec S init sched) t1) (h2 : m ∈ inside S (exec S init sched) t2) :
     t1 = t2 := by
   obtain ⟨hm, _⟩ := inv_mutex (reachable_exec (S := S) Reachable.init sched)
@@ -112,10 +131,10 @@ theorem mutex_exclusion (S : Sys) (sched : List Nat) (m t1 t2 : Nat)
   rw [o1] at o2
   exact Option.some.inj o2
 
-example : 0 ∈ inside exSys (exec exSys init [0, 1, 0, 0]) 0 := by decide
+example : 0 ∈ inside exSys (exec exSys init [(0, 0), (1, 0), (0, 0), (0, 0)]) 0 := by decide
 
 /-- For every schedule a mutex is free exactly when no thread is inside one of its sections. -/
-theorem mutex_free_iff (S : Sys) (sched : List Nat) (m : Nat) :
+theorem mutex_free_iff (S : Sys) (sched : List (Nat × Nat)) (m : Nat) :
     (exec S init sched).owner m = none ↔ ∀ t, m ∉ inside S (exec S init sched) t := by
   obtain ⟨hm, _⟩ := inv_mutex (reachable_exec (S := S) Reachable.init sched)
   constructor
@@ -135,7 +154,7 @@ theorem compile_balanced (s : Stmt) (hs : List Nat) : heldFrom hs (compile s).1 
 
 /-- The mutex is free again after any exit: when every thread runs a compiled statement then,
     for every schedule that runs all threads to completion, every mutex is free. -/
-theorem mutex_free_after_any_exit (stmts : List Stmt) (caps : List Nat) (sched : List Nat)
+theorem mutex_free_after_any_exit (stmts : List Stmt) (caps : List Nat) (sched : List (Nat × Nat))
     (hq : quiescent ⟨stmts.map Stmt.ops, caps⟩ (exec ⟨stmts.map Stmt.ops, caps⟩ init sched) = true)
     (m : Nat) : (exec ⟨stmts.map Stmt.ops, caps⟩ init sched).owner m = none := by
   rw [mutex_free_iff]
@@ -157,20 +176,20 @@ def exStmts : List Stmt :=
   [.protect (.withLock 0 (.seq (.incr 0) .fail)), .withLock 0 (.incr 0)]
 
 example : quiescent ⟨exStmts.map Stmt.ops, []⟩
-    (exec ⟨exStmts.map Stmt.ops, []⟩ init [0, 1, 0, 0, 0, 1, 1, 1, 1]) = true := by decide
+    (exec ⟨exStmts.map Stmt.ops, []⟩ init ([0, 1, 0, 0, 0, 1, 1, 1, 1].map (fun t => (t, 0)))) = true := by decide
 
 /-! ## guarded counters -/
 
 /-- For every schedule of a guarded system the counter equals the number of increments that
     have completed so far (no update is lost, none is counted twice). -/
 theorem counter_tracks_increments (S : Sys) (g : Nat → Nat) (hg : S.guarded g = true)
-    (sched : List Nat) (k : Nat) :
+    (sched : List (Nat × Nat)) (k : Nat) :
     (exec S init sched).value k = doneIncr S (exec S init sched) k :=
   (inv_counter hg (reachable_exec Reachable.init sched)).2.1 k
 
 /-- `no_lost_update`: at quiescence the guarded counter equals the number of increments the
     programs contain. -/
-theorem no_lost_update (S : Sys) (g : Nat → Nat) (hg : S.guarded g = true) (sched : List Nat)
+theorem no_lost_update (S : Sys) (g : Nat → Nat) (hg : S.guarded g = true) (sched : List (Nat × Nat))
     (hq : quiescent S (exec S init sched) = true) (k : Nat) :
     (exec S init sched).value k = totalIncr S k := by
   rw [counter_tracks_increments S g hg sched k]
@@ -185,7 +204,7 @@ example : exSys.guarded (fun _ => 0) = true ∧ quiescent exSys (exec exSys init
 /-- For every schedule of a guarded system the increments of a counter read the values
     0, 1, 2, … in this order: the execution of the critical sections is a sequential one. -/
 theorem increments_read_sequentially (S : Sys) (g : Nat → Nat) (hg : S.guarded g = true)
-    (sched : List Nat) (k : Nat) :
+    (sched : List (Nat × Nat)) (k : Nat) :
     loadLog k (exec S init sched).trace = List.range (loadLog k (exec S init sched).trace).length :=
   ((inv_counter hg (reachable_exec Reachable.init sched)).2.2 k).1
 
@@ -197,7 +216,7 @@ theorem increments_read_sequentially (S : Sys) (g : Nat → Nat) (hg : S.guarded
 /-- Two schedules that both run a guarded system to completion end with the same counters and,
     per producer and channel, the same delivered-or-buffered items. -/
 theorem serializable_partial (S : Sys) (g : Nat → Nat) (hg : S.guarded g = true)
-    (s1 s2 : List Nat) (h1 : quiescent S (exec S init s1) = true)
+    (s1 s2 : List (Nat × Nat)) (h1 : quiescent S (exec S init s1) = true)
     (h2 : quiescent S (exec S init s2) = true) :
     (∀ k, (exec S init s1).value k = (exec S init s2).value k) ∧
     (∀ ch p, (recvLog ch (exec S init s1).trace).filter (fun it => it.src == p)
@@ -211,12 +230,12 @@ theorem serializable_partial (S : Sys) (g : Nat → Nat) (hg : S.guarded g = tru
 
 /-- For every schedule the enter/exit log of the trace is accepted by `mutexOk`; at quiescence
     of compiled statements also with the "nobody left inside" clause. -/
-theorem exec_mutexOk (S : Sys) (sched : List Nat) :
+theorem exec_mutexOk (S : Sys) (sched : List (Nat × Nat)) :
     mutexOk false (mutexLog (exec S init sched).trace) = true := by
   obtain ⟨hs, hrun, _, _⟩ := inv_mutexRun (reachable_exec (S := S) Reachable.init sched)
   simp [mutexOk, hrun]
 
-theorem exec_mutexOk_quiescent (stmts : List Stmt) (caps : List Nat) (sched : List Nat)
+theorem exec_mutexOk_quiescent (stmts : List Stmt) (caps : List Nat) (sched : List (Nat × Nat))
     (hq : quiescent ⟨stmts.map Stmt.ops, caps⟩ (exec ⟨stmts.map Stmt.ops, caps⟩ init sched) = true) :
     mutexOk true (mutexLog (exec ⟨stmts.map Stmt.ops, caps⟩ init sched).trace) = true := by
   obtain ⟨hs, hrun, _, hiff⟩ :=
@@ -233,7 +252,7 @@ theorem exec_mutexOk_quiescent (stmts : List Stmt) (caps : List Nat) (sched : Li
 
 /-- For every schedule of a guarded system that runs to completion, the read log and the final
     counter values are accepted by `counterOk`. -/
-theorem exec_counterOk (S : Sys) (g : Nat → Nat) (hg : S.guarded g = true) (sched : List Nat)
+theorem exec_counterOk (S : Sys) (g : Nat → Nat) (hg : S.guarded g = true) (sched : List (Nat × Nat))
     (hq : quiescent S (exec S init sched) = true) (ks : List Nat) :
     counterOk (readLog (exec S init sched).trace)
       (ks.map (fun k => (k, (exec S init sched).value k))) = true := by
@@ -262,7 +281,7 @@ theorem exec_counterOk (S : Sys) (g : Nat → Nat) (hg : S.guarded g = true) (sc
 /-- For every schedule, when the items each producer pushes are pairwise distinct, the model's
     observation of a channel (per-producer sent lists, per-consumer received lists, buffered
     rest) is accepted by `fifoOk`. -/
-theorem exec_fifoOk (S : Sys) (nch : Nat) (hd : S.distinctSends nch = true) (sched : List Nat)
+theorem exec_fifoOk (S : Sys) (nch : Nat) (hd : S.distinctSends nch = true) (sched : List (Nat × Nat))
     (ch : Nat) (hch : ch < nch) :
     (obsFifo S (exec S init sched) ch).wf = true ∧ fifoOk (obsFifo S (exec S init sched) ch) = true :=
   obsFifo_ok hd (reachable_exec Reachable.init sched) hch
